@@ -236,6 +236,7 @@ func (p *parser) parseFunc() Node {
 	}
 	p.assertEnd()
 	p.advance()
+	p.assertEOL()
 	p.recordComment(block)
 	p.advancePastNL()
 	fd.Body = block
@@ -295,6 +296,7 @@ func (p *parser) parseEventHandler() Node {
 	e.Body = p.parseBlock()
 	p.assertEnd()
 	p.advance()
+	p.assertEOL()
 	p.recordComment(e.Body)
 	p.advancePastNL()
 	return e
@@ -905,6 +907,7 @@ func (p *parser) parseForStatement() Node {
 	forNode.Block = p.parseBlock()
 	p.assertEnd()
 	p.advance()
+	p.assertEOL()
 	p.recordComment(forNode.Block)
 	p.advancePastNL()
 	return forNode
@@ -950,6 +953,7 @@ func (p *parser) parseWhileStatement() Node {
 	p.recordCommentString(&while.ConditionalBlock, comment)
 	p.assertEnd()
 	p.advance()
+	p.assertEOL()
 	p.recordComment(while.ConditionalBlock.Block)
 	p.advancePastNL()
 	return while
@@ -992,6 +996,7 @@ func (p *parser) parseIfStatement() Node {
 	}
 	p.assertEnd()
 	p.advance()
+	p.assertEOL()
 	p.recordComment(ifStmt)
 	p.advancePastNL()
 	return ifStmt
